@@ -33,7 +33,8 @@ SetInsert(p) ==
 DoInsert(p) ==
   LET want == SetInsert(p)
       got == IF p \in ValidIdx THEN InsertRoute(t, PoolChars[p]) ELSE IRes("invalid", t, {})
-  IN /\ Assert(got.err = want.err /\ got.matched = want.matched, <<"refinement: Insert result differs", PoolChars[p], t, got.err, want.err, got.matched, want.matched>>)
+  IN /\ Cardinality(S) < GenMaxRoutes
+     /\ Assert(got.err = want.err /\ got.matched = want.matched, <<"refinement: Insert result differs", PoolChars[p], t, got.err, want.err, got.matched, want.matched>>)
      /\ t' = got.t /\ S' = want.S /\ op' = [name |-> "Insert", p |-> p, err |-> want.err]
 
 DoRemove(p) ==
